@@ -368,12 +368,24 @@ example : Ref.framing [(sTE, [103, 122, 105, 112])] sHttp11 .request [] = .error
 /-! ### Round trip of forwarded messages
 
 `ForwardRequestRoundtrip` / `ForwardStreamRoundtrip` below are the full statements of DESIGN §5 C01 (kept as definitions).
-Proved: `forward_request_roundtrip_nofold` (= the full statement, incl. edit_stable, for every request whose field values
-contain no obs-fold: Content-Length, no-body and chunked re-framing) and `forward_stream_roundtrip_nofold` (pipelined
-messages, by induction).  Not proved: requests whose values contain obs-fold (the fields are then read back as `Ref.unfold`
-of the recorded ones; checked on an instance by `rfl` below and by the oracle on the real layer), and the response-side
-analogue for `relayResponse` (its framing decision is covered by `framing_agrees`, the bytes by the oracle and the
-`fwdresp`/`refresp` correspondence). -/
+Proved:
+  * `forward_request_roundtrip_nofold` (= the full request statement, incl. edit_stable, for every request whose field
+    values contain no obs-fold: Content-Length, no body, chunked re-framing), its two halves `…_partial` /
+    `…_chunked_partial`, and `forward_stream_roundtrip_nofold` (pipelined messages, by induction);
+  * `relay_response_roundtrip` (responses in the context of the request method: HEAD / 1xx / 204 / 304 shortcuts,
+    Content-Length, chunked re-framing, read-until-close; fold-free values).
+Not proved: messages whose field values contain obs-fold.  The fields are then read back as `Ref.unfold` of the recorded ones
+(instance checked by `rfl` below, and by the oracle on the real layer).  What is missing is exactly one normalisation lemma,
+`ObsFoldNormalisation` below: reading the lines of `name ": " v CRLF` (where `valueOk v`, so every CR in `v` is followed by LF
+and every LF by SP/HTAB) with `Ref.headLines` + `Ref.fieldsAux` yields the single field `(name, Ref.unfold v)`; with it
+`head_lines_fields` generalises verbatim (the rest of the proofs does not look at the values). -/
+
+/-- the missing lemma for obs-fold (stated, not proved) -/
+def ObsFoldNormalisation : Prop :=
+  ∀ (name v tail : Bytes) (ls : List Bytes) (acc : List Field),
+    isToken name = true → valueOk v = true →
+    Ref.headLines ((name ++ colonSp ++ v ++ crlf ++ crlf ++ tail).length + 1) (name ++ colonSp ++ v ++ crlf ++ crlf ++ tail) = .ok (ls, tail) →
+    Ref.fieldsAux ls acc = .ok (acc.reverse ++ [(name, Ref.unfold v)])
 
 /-- a body is consistent with the request's headers (what `set_content` maintains): chunked → any body; otherwise the
     Content-Length value is the body length, and no Content-Length means no body -/
@@ -706,6 +718,277 @@ theorem forward_stream_roundtrip_nofold : ∀ (ms : List (ReqHead × Bytes)) (f 
       rw [← hdata, hp]
       simp only
       exact ⟨ih1, by simp [ih2]⟩
+
+/-! ### responses relayed to the client -/
+
+/-- generic head reading: a clean first line, validated fold-free fields -/
+private theorem head_lines_fields {kind : Kind} {version reason : Bytes} (first : Bytes) (fs : List Field)
+    (hv : validateHeaders kind version reason fs = true) (hfirst : cleanLine first ∧ first ≠ [])
+    (hnames : ∀ f ∈ fs, (10 : UInt8) ∉ f.1) (hplain : ∀ f ∈ fs, cleanLine f.2 ∧ stripBy isOws f.2 = f.2) (tail : Bytes) :
+    Ref.headLines ((first ++ crlf ++ assembleFields fs ++ crlf ++ tail).length + 1) (first ++ crlf ++ assembleFields fs ++ crlf ++ tail) =
+        .ok (first :: fs.map fieldLine, tail) ∧
+    Ref.fields (fs.map fieldLine) = .ok fs := by
+  have hvc := (validate_cases hv).1
+  have hfields : ∀ f ∈ fs, isToken f.1 = true ∧ stripBy isOws f.2 = f.2 := by
+    intro f hf
+    refine ⟨?_, (hplain f hf).2⟩
+    have h1 := (hvc f hf).1
+    have h2 : dropFinalLF f.1 = f.1 := by
+      apply dropFinalLF_id
+      intro e
+      exact hnames f hf (List.mem_of_getLast? e)
+    simpa [nameOk, h2] using h1
+  have hwire : first ++ crlf ++ assembleFields fs ++ crlf ++ tail = renderLines (first :: fs.map fieldLine) ++ crlf ++ tail := by
+    simp only [assembleFields_eq, renderLines, List.append_assoc]
+  have hlines : ∀ l ∈ first :: fs.map fieldLine, cleanLine l ∧ l ≠ [] := by
+    intro l hl
+    simp only [List.mem_cons, List.mem_map] at hl
+    rcases hl with rfl | ⟨f, hf, rfl⟩
+    · exact hfirst
+    · obtain ⟨hcol, h13, h10, hne, _⟩ := token_no_colon (hfields f hf).1
+      have hvv := (hplain f hf).1
+      refine ⟨⟨?_, ?_⟩, ?_⟩
+      · simp [fieldLine, colonSp, h13, hvv.1]
+      · simp [fieldLine, colonSp, h10, hvv.2]
+      · cases hn : f.1 with
+        | nil => exact absurd hn hne
+        | cons c cs => simp [fieldLine, hn]
+  constructor
+  · rw [hwire]
+    apply headLines_render _ _ _ hlines
+    have := renderLines_length (first :: fs.map fieldLine)
+    simp only [List.length_append] at this ⊢
+    omega
+  · have := fieldsAux_render fs [] hfields
+    simp only [List.reverse_nil, List.nil_append] at this
+    rw [Ref.fields, this]
+    have hnul : (fs.all fun f => !f.2.contains 0) = true := by
+      apply List.all_eq_true.mpr
+      intro f hf
+      have := valueOk_no_nul (hvc f hf).2
+      simpa using this
+    simp only [hnul, ↓reduceIte]
+
+private theorem statusLine_assembled {v reason : Bytes} {st : Nat} (hv : versionOk v = true)
+    (hst : 100 ≤ st ∧ st ≤ 999) (hr : cleanLine reason) :
+    let line := v ++ [32] ++ decDigits st ++ [32] ++ reason
+    Ref.statusLine line = some (v, st, reason) ∧ (line.drop 9).take 3 = decDigits st ∧ cleanLine line ∧ line ≠ [] := by
+  obtain ⟨a, b, c, hd, ha, hb, hc, hn⟩ := decDigits_spec st hst
+  obtain ⟨_, v13, v10⟩ := version_facts hv
+  have hshape : ∃ x y, v = [72, 84, 84, 80, 47, x, 46, y] := by
+    unfold versionOk at hv
+    split at hv
+    · exact ⟨_, _, rfl⟩
+    · simp at hv
+  obtain ⟨x, y, rfl⟩ := hshape
+  have dig : ∀ d : UInt8, isDigit d = true → d ≠ 13 ∧ d ≠ 10 := by
+    intro d hd'
+    constructor <;> (intro e; subst e; revert hd'; decide)
+  simp only [hd]
+  refine ⟨?_, by simp, ⟨?_, ?_⟩, by simp⟩
+  · simp [Ref.statusLine, hv, ha, hb, hc, hn]
+  · have := hr.1
+    simp only [List.mem_append, List.mem_cons, List.not_mem_nil, or_false, not_or] at v13 ⊢
+    exact ⟨⟨⟨⟨v13, by decide⟩, fun e => (dig a ha).1 e.symm, fun e => (dig b hb).1 e.symm, fun e => (dig c hc).1 e.symm⟩, by decide⟩, this⟩
+  · have := hr.2
+    simp only [List.mem_append, List.mem_cons, List.not_mem_nil, or_false, not_or] at v10 ⊢
+    exact ⟨⟨⟨⟨v10, by decide⟩, fun e => (dig a ha).2 e.symm, fun e => (dig b hb).2 e.symm, fun e => (dig c hc).2 e.symm⟩, by decide⟩, this⟩
+
+/-- a body is consistent with a response in the context of its request method -/
+def RespBodyConsistent (reqMethod : Bytes) (r : RespHead) (body rest : Bytes) (eof : Bool) : Prop :=
+  match responseBodySize reqMethod r with
+  | some (.len n) => body.length = n
+  | some .chunked => True
+  | some .untilEof => eof = true ∧ rest = []        -- delimited by the end of the stream: nothing follows
+  | none => False
+
+/-- what `_read_response_line` / `_read_headers` guarantee: `HTTP/d.d`, status 100..999, reason and values without line
+    breaks, names without LF, values without surrounding OWS -/
+def RespHeadOk (r : RespHead) : Prop :=
+  versionOk r.version = true ∧ (100 ≤ r.status ∧ r.status ≤ 999) ∧ cleanLine r.reason ∧
+  (∀ f ∈ r.fields, (10 : UInt8) ∉ f.1) ∧ (∀ f ∈ r.fields, cleanLine f.2 ∧ stripBy isOws f.2 = f.2)
+
+/-- **relay_response_roundtrip**: for every response `validate_headers` accepts — from the wire or after addon edits — in the
+    context of the method of the request it answers, and every body consistent with it (incl. the HEAD / 1xx / 204 / 304
+    shortcuts, Content-Length, the one-chunk + last-chunk re-framing, and read-until-close), the strict reference reader reads
+    the bytes written by `Http1Server.send` back as exactly this version, status, reason, field list and body, and leaves
+    exactly what follows.  (A 2xx answer to CONNECT is produced by the proxy itself and opens a tunnel: excluded.) -/
+theorem relay_response_roundtrip (reqMethod : Bytes) (r : RespHead) (body rest : Bytes) (eof : Bool)
+    (hv : validateHeaders (.response r.status) r.version r.reason r.fields = true) (hok : RespHeadOk r)
+    (hconn : ¬(asciiUpper reqMethod = sCONNECT ∧ 200 ≤ r.status ∧ r.status ≤ 299))
+    (hb : RespBodyConsistent reqMethod r body rest eof) :
+    ∃ fr, Ref.parseResponse reqMethod eof (relayResponse reqMethod r body ++ rest) =
+      .ok (⟨r.version, decDigits r.status, r.reason, r.fields, body, fr⟩, rest) := by
+  obtain ⟨hver, hst, hreason, hnames, hplain⟩ := hok
+  obtain ⟨line, hline⟩ : ∃ l, l = r.version ++ [32] ++ decDigits r.status ++ [32] ++ r.reason := ⟨_, rfl⟩
+  obtain ⟨hsl, hdig, hclean, hlne⟩ := statusLine_assembled hver hst hreason
+  rw [← hline] at hsl hdig hclean hlne
+  -- payload written after the head
+  obtain ⟨payload, hpay⟩ : ∃ p, relayResponse reqMethod r body = assembleResponseHead r ++ p := ⟨_, rfl⟩
+  have hhead_eq : assembleResponseHead r = line ++ crlf ++ assembleFields r.fields ++ crlf := by
+    simp [assembleResponseHead, hline, List.append_assoc]
+  obtain ⟨hhead, hflds⟩ := head_lines_fields line r.fields hv ⟨hclean, hlne⟩ hnames hplain (payload ++ rest)
+  have hwire : relayResponse reqMethod r body ++ rest = line ++ crlf ++ assembleFields r.fields ++ crlf ++ (payload ++ rest) := by
+    rw [hpay, hhead_eq]; simp [List.append_assoc]
+  obtain ⟨sz, fr, hsz, hfr, hag⟩ := framing_agrees (.response r.status) r.version r.reason reqMethod r.fields hv
+  have hsz' : responseBodySize reqMethod r = some sz := by
+    have : (⟨[], r.status, [], r.fields⟩ : RespHead) = ⟨[], r.status, [], r.fields⟩ := rfl
+    simpa [proxySize, responseBodySize] using hsz
+  unfold Ref.parseResponse
+  rw [hwire, hhead]
+  simp only [hsl, hflds, hfr, hdig]
+  unfold RespBodyConsistent at hb
+  rw [hsz'] at hb
+  -- what the payload is
+  have hpay' : payload =
+      (if sendsChunked r.fields then
+         (if (!body.isEmpty && !(asciiUpper reqMethod = sHEAD || r.status = 204 || r.status = 304)) then chunk body else []) ++
+         (if asciiUpper reqMethod ≠ sHEAD ∧ !noBodyStatus r.status then lastChunk else [])
+       else (if (!body.isEmpty && !(asciiUpper reqMethod = sHEAD || r.status = 204 || r.status = 304)) then body else [])) := by
+    have := hpay
+    simp only [relayResponse] at this
+    exact (List.append_cancel_left this).symm
+  by_cases hnb : Ref.noBody (.response r.status) reqMethod = true
+  · -- HEAD / 1xx / 204 / 304: nothing follows the head
+    have hp0 := proxy_nobody r.fields hnb
+    rw [hsz] at hp0
+    simp at hp0; subst hp0
+    simp only at hb
+    have hbody : body = [] := by cases body <;> simp at hb ⊢
+    subst hbody
+    have hfr0 : fr = .none := by
+      have := hfr
+      unfold Ref.framing at this
+      -- with noBody the reference reader answers `none` once the checks passed: read it off `Agree`
+      cases fr <;> simp [Agree] at hag ⊢
+      · rename_i m
+        -- `.cl m` is impossible when noBody holds
+        exfalso
+        revert this
+        simp only [hnb]
+        intro this
+        split at this
+        · simp at this
+        · split at this
+          · simp at this
+          · split at this
+            · simp at this
+            · simp at this
+    subst hfr0
+    have hnl : (asciiUpper reqMethod ≠ sHEAD ∧ (!noBodyStatus r.status) = true) → False := by
+      intro hh
+      simp only [Ref.noBody, Bool.or_eq_true, Bool.and_eq_true, decide_eq_true_eq] at hnb
+      rcases hnb with (h | h) | h
+      · exact hh.1 h
+      · simp [h] at hh
+      · exact hconn ⟨h.1.1, h.1.2, h.2⟩
+    have : payload = [] := by
+      rw [hpay']
+      by_cases hsc : sendsChunked r.fields = true
+      · simp [hsc]
+        intro h1 h2
+        exact (hnl ⟨h1, by simpa using h2⟩).elim
+      · simp [hsc]
+    subst this
+    exact ⟨.none, by simp⟩
+  · have hnb' : Ref.noBody (.response r.status) reqMethod = false := by simpa using hnb
+    -- data is written whenever the body is non-empty
+    have hnh : asciiUpper reqMethod ≠ sHEAD ∧ noBodyStatus r.status = false := by
+      simp only [Ref.noBody, Bool.or_eq_false_iff, Bool.and_eq_false_iff, decide_eq_false_iff_not] at hnb'
+      exact ⟨hnb'.1.1, hnb'.1.2⟩
+    have hnot : (asciiUpper reqMethod = sHEAD || r.status = 204 || r.status = 304) = false := by
+      have h2 := hnh.2
+      simp only [noBodyStatus, Bool.or_eq_false_iff, decide_eq_false_iff_not] at h2
+      simp [hnh.1, h2.1.2, h2.2]
+    have h204 : r.status ≠ 204 ∧ r.status ≠ 304 := by
+      have h2 := hnh.2
+      simp only [noBodyStatus, Bool.or_eq_false_iff, decide_eq_false_iff_not] at h2
+      exact ⟨h2.1.2, h2.2⟩
+    obtain ⟨_, hcases⟩ := validate_cases hv
+    cases sz with
+    | len n =>
+      simp only at hb
+      -- no Transfer-Encoding
+      have hte : getAll r.fields sTE = [] := by
+        rcases hcases with ⟨t, cls, w, hte1, _, _, hpt, _⟩ | ⟨c, m, hte0, _, _⟩ | ⟨hte0, _⟩
+        · exfalso
+          have htne := parseTE_nonempty hpt
+          rw [proxy_body r.fields hnb'] at hsz
+          cases cls <;> simp [sizeFromHeaders, getJoined_single hte1, htne, hpt] at hsz
+        · exact hte0
+        · exact hte0
+      have hnc : sendsChunked r.fields = false := by simp [sendsChunked, getJoined_none hte]
+      have hp : payload = body := by
+        rw [hpay']; simp [hnc, hnh.1, h204.1, h204.2] <;> (intro hbe; cases body <;> simp_all)
+      subst hp
+      cases fr with
+      | none =>
+        simp only [Agree] at hag; subst hag
+        have : payload = [] := by cases payload <;> simp at hb ⊢
+        subst this
+        exact ⟨.none, by simp⟩
+      | cl m =>
+        simp only [Agree] at hag; subst hag
+        refine ⟨.cl n, ?_⟩
+        have h1 : ¬ (payload ++ rest).length < n := by simp; omega
+        simp only [h1, ↓reduceIte]
+        rw [List.take_append_of_le_length (by omega), List.drop_append_of_le_length (by omega)]
+        simp [← hb]
+      | chunked => simp [Agree] at hag
+      | eof => simp [Agree] at hag
+    | chunked =>
+      have hfrc : fr = .chunked := by cases fr <;> simp [Agree] at hag ⊢
+      subst hfrc
+      have hsc : sendsChunked r.fields = true := by
+        rcases hcases with ⟨t, cls, w, hte1, _, _, hpt, _⟩ | ⟨c, m, hte0, hcl1, hpc⟩ | ⟨hte0, hcl0⟩
+        · have htne := parseTE_nonempty hpt
+          rw [proxy_body r.fields hnb'] at hsz
+          cases cls with
+          | chunkedFinal => simp [sendsChunked, getJoined_single hte1, sendsChunked_of_parseTE hpt]
+          | other => simp [sizeFromHeaders, getJoined_single hte1, htne, hpt] at hsz
+        · exfalso
+          rw [proxy_body r.fields hnb'] at hsz
+          have hcne : c ≠ [] := by intro e; subst e; simp [parseCL, dropFinalLF, clDigits] at hpc
+          simp [sizeFromHeaders, getJoined_none hte0, getJoined_single hcl1, hcne, hpc] at hsz
+        · exfalso
+          rw [proxy_body r.fields hnb'] at hsz
+          simp [sizeFromHeaders, getJoined_none hte0, getJoined_none hcl0] at hsz
+      have hlast : (asciiUpper reqMethod ≠ sHEAD ∧ (!noBodyStatus r.status) = true) := ⟨hnh.1, by simp [hnh.2]⟩
+      refine ⟨.chunked, ?_⟩
+      have hchunk : Ref.chunkedBody ((payload ++ rest).length + 1) (payload ++ rest) [] false = .ok (body, rest) := by
+        by_cases hbe : body = []
+        · subst hbe
+          have hp : payload = lastChunk := by rw [hpay']; simp [hsc, hlast]
+          subst hp
+          have hl5 : (lastChunk ++ rest).length + 1 = (rest.length + 4) + 2 := by simp [lastChunk]
+          rw [hl5]
+          exact chunkedBody_last (rest.length + 4) [] rest
+        · have hbne : body.isEmpty = false := by cases body <;> simp at hbe ⊢
+          have hp : payload = chunk body ++ lastChunk := by rw [hpay']; simp [hsc, hlast, hbne, hnh.1, h204.1, h204.2]
+          subst hp
+          have : (chunk body ++ lastChunk ++ rest).length + 1 = ((chunk body ++ lastChunk ++ rest).length - 2) + 3 := by
+            simp [lastChunk]; omega
+          rw [this]
+          exact chunkedBody_chunk _ body rest hbe
+      rw [hchunk]
+    | untilEof =>
+      obtain ⟨heof, hrest⟩ := hb
+      subst heof; subst hrest
+      have hfre : fr = .eof := by cases fr <;> simp [Agree] at hag ⊢
+      subst hfre
+      have hnc : sendsChunked r.fields = false := by
+        rcases hcases with ⟨t, cls, w, hte1, _, _, hpt, _⟩ | ⟨c, m, hte0, _, _⟩ | ⟨hte0, _⟩
+        · have htne := parseTE_nonempty hpt
+          rw [proxy_body r.fields hnb'] at hsz
+          cases cls with
+          | chunkedFinal => simp [sizeFromHeaders, getJoined_single hte1, htne, hpt] at hsz
+          | other => simp [sendsChunked, getJoined_single hte1, not_sendsChunked_of_parseTE_other hpt]
+        · simp [sendsChunked, getJoined_none hte0]
+        · simp [sendsChunked, getJoined_none hte0]
+      have hp : payload = body := by
+        rw [hpay']; simp [hnc, hnh.1, h204.1, h204.2] <;> (intro hbe; cases body <;> simp_all)
+      subst hp
+      exact ⟨.eof, by simp⟩
 
 /-- instances (the statement holds on concrete messages, and is not vacuous) -/
 example : Ref.parseRequest (forwardRequest ⟨[71,69,84], [], [], [47], sHttp11, [([72,111,115,116], [104]), (sCL, [51])]⟩ [97,98,99] ++ [88]) =
